@@ -621,11 +621,13 @@ def check_prngs(ctx):
 
 
 def run(ctx):
-    check_tables(ctx)
-    check_aes_comb(ctx)
-    check_aes_sm(ctx, 'enc')
-    check_aes_sm(ctx, 'dec')
-    check_prngs(ctx)
+    import time
+    for name, f in (('tables', lambda: check_tables(ctx)), ('aes-comb', lambda: check_aes_comb(ctx)),
+                    ('aes-sm-enc', lambda: check_aes_sm(ctx, 'enc')), ('aes-sm-dec', lambda: check_aes_sm(ctx, 'dec')),
+                    ('prngs', lambda: check_prngs(ctx))):
+        t0 = time.time()
+        f()
+        ctx.count('wall_seconds', name, round(time.time() - t0, 1))
 
 
 def replay(ctx, data):
